@@ -70,11 +70,21 @@ def is_global(x):
     return isinstance(x, (type, types.FunctionType, types.BuiltinFunctionType, types.ModuleType))
 
 
+def _fill_key(x):
+    """the fill value as filled() inserts it (numpy casts it to the dtype of the array when used)"""
+    with np.errstate(all='ignore'), warnings.catch_warnings():
+        warnings.simplefilter('ignore')
+        try:
+            return np.asarray(x.fill_value).astype(x.dtype).tobytes().hex()
+        except Exception:
+            return repr(x.fill_value)
+
+
 def leaf_key(x):
     """hashable description of a leaf value: type and exact content."""
     if isinstance(x, np.ma.MaskedArray):
         return ('masked', str(x.dtype), x.shape, np.ma.getdata(x).tobytes().hex()[:64], hash(np.ma.getdata(x).tobytes()),
-                np.ma.getmaskarray(x).tobytes().hex()[:64], repr(x.fill_value))
+                np.ma.getmaskarray(x).tobytes().hex()[:64], _fill_key(x))
     if isinstance(x, np.ndarray):
         return ('ndarray', str(x.dtype), x.shape, hash(np.ascontiguousarray(x).tobytes()))
     if isinstance(x, np.dtype):
@@ -208,7 +218,7 @@ class Compare:
                 return
             ma, mb = np.ma.getmaskarray(a), np.ma.getmaskarray(b)
             if a.shape != b.shape or a.dtype != b.dtype or not np.array_equal(ma, mb) or \
-                    not np.array_equal(np.ma.getdata(a)[~ma], np.ma.getdata(b)[~mb]):
+                    np.ascontiguousarray(np.ma.getdata(a)[~ma]).tobytes() != np.ascontiguousarray(np.ma.getdata(b)[~mb]).tobytes():
                 self.bad(path, 'masked array differs')
             return
         if isinstance(a, np.ndarray):
@@ -569,6 +579,36 @@ def classes_inside(x, seen, out, depth=0):
             classes_inside(y, seen, out, depth + 1)
 
 
+def wrap_object(obj):
+    """the generated object referenced from several containers (plain and general dictionary, list, tuple, instance attributes)
+    which themselves lie on reference cycles: every reference must come back as ONE object"""
+    from tenpy.tools.hdf5_io import Hdf5Exportable
+    h = Hdf5Exportable()
+    h.first = obj
+    h.second = obj
+    lst = [obj, h]
+    root = {'alone': obj, 'again': lst, 'tuple': (obj, lst), 'general': {1: obj, (2, 3): h}}
+    lst.append(root)        # cycle root -> lst -> root
+    h.back = root           # cycle through an instance
+    return root
+
+
+def wrap_checks(orig, loaded):
+    probs = []
+    try:
+        L = loaded
+        refs = [L['alone'], L['again'][0], L['again'][1].first, L['again'][1].second, L['tuple'][0], L['general'][1], L['general'][(2, 3)].first]
+        if any(r is not refs[0] for r in refs):
+            probs.append('wrapped: the object referenced from 7 places was loaded as %d different objects' % len({id(r) for r in refs}))
+        if type(refs[0]) is not type(orig['alone']):
+            probs.append('wrapped: %s became %s' % (type(orig['alone']).__name__, type(refs[0]).__name__))
+        if not (L['again'][2] is L and L['again'][1].back is L and L['tuple'][1] is L['again'] and L['general'][(2, 3)] is L['again'][1]):
+            probs.append('wrapped: the reference cycles of the surrounding containers are not restored')
+    except Exception as e:
+        probs.append('wrapped: structure lost (%s: %s)' % (type(e).__name__, str(e)[:100]))
+    return probs
+
+
 def run_object(spec):
     import c17_gen
     res = {'name': spec['gen'], 'methods': {}}
@@ -582,6 +622,8 @@ def run_object(spec):
     cls = set()
     classes_inside(obj, set(), cls)
     res['classes'] = sorted(cls)
+    if spec.get('wrap'):
+        obj = wrap_object(obj)
     for method in spec['methods']:
         out = {}
         res['methods'][method] = out
@@ -605,8 +647,14 @@ def run_object(spec):
             out['shared'] = c.shared
             so = {'n': 0, 'bad': []}
             sanity_walk(loaded, set(), so)
+            if so['bad']:      # "passes its own sanity check": a check the ORIGINAL fails in the same way says nothing about saving
+                so0 = {'n': 0, 'bad': []}
+                sanity_walk(obj, set(), so0)
+                so['bad'] = [b for b in so['bad'] if b not in so0['bad']]
             out['sanity_n'] = so['n']
             out['sanity_bad'] = so['bad']
+            if spec.get('wrap'):
+                out['problems'] += wrap_checks(obj, loaded)
             if spec.get('shape') and not flat and method in spec.get('shape_methods', [method]):
                 out['shape'] = canon_pair(obj, loaded, spec.get('max_nodes', 1500))
         except Exception:
